@@ -256,20 +256,24 @@ class Oracle:
                 self.bad("copied-%s-value" % kind, "explicit attribute of the source object not carried over", dict(object=sobj.name, attribute=k, source=v),
                          tobj.attributes.get(k))
 
-    def new_defines(self, defs_before, sdb, tdb):
-        """a definition the target did not have comes with the source's definition, type and default"""
+    def new_defines(self, defs_before, sdbs, tdb):
+        """a definition the target did not have comes with the definition, type and default of a source that has it"""
         for cat in CATS:
-            sdef = getattr(sdb, DEFATTR[cat])
             for a, d in getattr(tdb, DEFATTR[cat]).items():
-                if a in defs_before[cat] or a not in sdef:
+                cands = [getattr(s, DEFATTR[cat])[a] for s in sdbs if a in getattr(s, DEFATTR[cat])]
+                if a in defs_before[cat]:
                     continue
-                s = sdef[a]
-                ok = d.type == s.type and d.defaultValue == s.defaultValue
-                if s.type == "ENUM":
-                    ok = ok and list(d.values[:len(s.values)]) == list(s.values)
-                else:
-                    ok = ok and d.definition == s.definition
-                if not ok:
+                if not cands:
+                    self.bad("define-differs", "the target got a definition no source has", dict(cat=cat, attribute=a))
+                    continue
+
+                def same(s):
+                    ok = d.type == s.type and d.defaultValue == s.defaultValue
+                    if s.type == "ENUM":
+                        return ok and list(d.values[:len(s.values)]) == list(s.values)
+                    return ok and d.definition == s.definition
+                if not any(same(s) for s in cands):
+                    s = cands[0]
                     self.bad("define-differs", "a definition brought along differs from the source's",
                              dict(cat=cat, attribute=a, source=(s.definition, s.type, s.defaultValue)), (d.definition, d.type, d.defaultValue))
 
@@ -372,8 +376,7 @@ def apply_op(chk, C, cp, orc, tdb, op, sdbs, I):
             orc.bad("source-modified", "the copy changed the source matrix")
     direct = kind == "ecu_frames" and op["direct"]
     orc.bystanders(snap, tdb, allow_ecu_removal=direct)
-    for s in sdbs:
-        orc.new_defines(defs_before, s, tdb)
+    orc.new_defines(defs_before, sdbs, tdb)
     sdb = sdbs[0]
     if kind == "frame":
         want = (op["id"], op["ext"])
